@@ -13,7 +13,7 @@ EXPLANATION = (
     "decimal-literal conversion has no error exit and yields INTEGER/LONG/DOUBLE; hex/octal yield "
     "INTEGER/LONG or Overflow; fraction literals yield SINGLE or (with #) DOUBLE; negating a "
     "literal is guarded at MIN_INTEGER / MIN_LONG, and (R5, interval dataflow) every integer literal "
-    "built by arithmetic in the parser stays inside the range of its literal type.")
+    "built by arithmetic in the parser stays inside the range of its literal type. (R6) a unary operator is pushed down the whole left spine of the chain it precedes; (R7) the parser never narrows an f64 to f32, so a SINGLE literal is rounded once, from its text.")
 NOT_DECIDED = [
     "that the binary rotation groups chains of four or more operators correctly (the unary rotation is decided on two-level chains, C10.R6)",
     "the numeric thresholds and the exact value a literal denotes (value-level)",
